@@ -1,6 +1,30 @@
 (* C03 — judge for function-deduplication pairs exported by the harness: (removed function, its
    representative), both as Model.fn terms; 0 = alpha_eq accepts, 1 = rejects. *)
-From SwayV Require Import Base.Util C03.Model.
+From SwayV Require Import Base.Util C03.Model C03.ModelVal.
 Open Scope N_scope.
 Definition judge_all (ps : list (fn * fn)) : list N :=
   map (fun p => if alpha_eq (fst p) (snd p) then 0 else 1) ps.
+
+(* ---- (before, after) pairs of dce / globals-dce:
+   0 dce_check accepts
+   3 accepted only when every label counts as pure: an instruction with side effects was removed
+     (e.g. a store to a dead local) — outside this validator, compared behaviourally
+   2 a removed value is still used in `after`
+   1 `after` is not `before` minus instructions *)
+Definition all_labels (f : fn) : list N := flat_map (fun b => map i_label (b_body b)) f.
+Definition uses_removed (f g : fn) : bool :=
+  let rm := removed_ids f g in
+  negb (forallb (fun b => forallb (fun i => ops_clean rm (i_ops i)) (b_body b) && term_clean rm (b_term b)) g).
+Definition judge_dce (c : list N * fn * fn) : N :=
+  match c with (pure, f, g) =>
+    if dce_check pure f g then 0
+    else if dce_check (all_labels f) f g then 3
+    else if uses_removed f g then 2 else 1
+  end.
+Definition judge_dce_all (cs : list (list N * fn * fn)) : list N := map judge_dce cs.
+
+(* ---- (before, after) pairs of simplify-cfg: 0 cfg_check accepts, 1 it does not (a real difference, or a
+   merge that substitutes block parameters, which this validator does not cover) *)
+Definition judge_cfg (c : list nat * fn * fn) : N :=
+  match c with (bmap, f, g) => if cfg_check bmap f g then 0 else 1 end.
+Definition judge_cfg_all (cs : list (list nat * fn * fn)) : list N := map judge_cfg cs.
